@@ -61,7 +61,8 @@ impl Property for C19 {
         ]
     }
 
-    fn generate(&self, rng: &mut Rng, _thorough: bool) -> J {
+    fn generate(&self, rng: &mut Rng, thorough: bool) -> J {
+        let _thorough = thorough;
         let kind = *rng.pick(&["select", "select", "aggregate", "aggregate", "join_select", "join_aggregate", "follow"]);
         let mut cfg = sqlgen::gen_table_cfg(rng);
         if kind == "follow" || rng.chance(1, 2) {
@@ -112,7 +113,22 @@ impl Property for C19 {
                 q
             }
         };
-        let n_main = rng.range(1, 12) as usize;
+        // size regime: an aggregate with hundreds of groups (a result table longer than any per-row check interval)
+        let large = (kind == "aggregate") && rng.chance(if _thorough { 6 } else { 2 }, 100);
+        let mut lc = lc;
+        let mut query = query;
+        if large {
+            lc.n_range = 1_000_000;
+            lc.null_pct = 0;
+            query = sqlgen::Query::default();
+            query.aggregate = true;
+            query.group_by = vec!["n".to_owned()];
+            query.projections = vec!["n".to_owned(), "COUNT(*) AS cnt".to_owned(), "MAX(r) AS m".to_owned()];
+            if rng.chance(1, 2) {
+                query.having = Some("COUNT(*) >= 1".to_owned());
+            }
+        }
+        let n_main = if large { rng.range(130, 320) as usize } else { rng.range(1, 12) as usize };
         let mut lines: Vec<Vec<u8>> = Vec::new();
         for _ in 0..n_main {
             let mut spec = sqlgen::gen_line_spec(rng, &cfg, &lc);
@@ -283,6 +299,13 @@ impl Property for C19 {
         for j in 0..prints {
             positions.push(Interrupt::AtPrint(j));
         }
+        if positions.len() > 160 {
+            // long run: a spread of positions instead of all of them (first and last ones always)
+            let total = positions.len();
+            let step = total / 40;
+            positions = positions.into_iter().enumerate().filter(|(i, _)| *i < 6 || *i + 8 >= total || i % step == 0).map(|(_, p)| p).collect();
+            out.probe("interrupt_positions_sampled", 1);
+        }
 
         for pos in positions {
             let label = format!("interrupt {:?}", pos);
@@ -417,6 +440,7 @@ impl Property for C19 {
         }
         out.probe(&format!("kind_{}", kind), 1);
         out.probe("multi_file", (files.len() > 1) as u64);
+        out.probe("aggregate_with_more_than_100_groups", (aggregate && base_records.len() > 100) as u64);
         out
     }
 }
